@@ -94,6 +94,9 @@ type DocConfig struct {
 	PlainCatalog bool
 	// EndstreamBodies makes every stream body a long text with lines that start with "endstream".
 	EndstreamBodies bool
+	// LongBodyLen > 0 makes every stream body a text of exactly that many bytes
+	// which neither contains "endstream" nor ends in an end-of-line marker.
+	LongBodyLen int
 	// WithMetadata adds an XMP metadata stream to the catalog (needs version >= 1.4);
 	// PlaintextMetadata writes it unfiltered and unencrypted.
 	WithMetadata      bool
@@ -671,6 +674,10 @@ func BuildDoc(r *kit.Rand, cfg DocConfig) (*Doc, error) {
 					body = append(body, "text on a line of its own\nendstream is a keyword\r\n"...)
 				}
 				body = append(body, 'x')
+			}
+			if cfg.LongBodyLen > 0 {
+				body = bytes.Repeat([]byte("plain text, one line after the other\n"), cfg.LongBodyLen/37+1)[:cfg.LongBodyLen]
+				body[len(body)-1] = '.'
 			}
 			if unit > 1 && !cfg.FaxStreams {
 				rows := r.Intn(6)
